@@ -98,7 +98,13 @@ def nontrivial(case: Case, spec: str) -> bool:
     return bool(k1 and end and k1.group(1) != end.group(1))
 
 
-def _consume(q, k):
+def _slack_constraint(which: int):
+    """a result-count constraint that can never be violated: it must not change what is pulled"""
+    from krrood.entity_query_language.result_quantification_constraint import AtLeast, AtMost, Range
+    return [None, AtLeast(0), AtMost(10 ** 6), Range(AtLeast(0), AtMost(10 ** 6))][which % 4]
+
+
+def _consume(q, k, which=0):
     """build the query with logging domains, consume k results (k=None: all); returns (silent, rows, pulls)"""
     del LOG[:]
     pulls = {}
@@ -113,7 +119,7 @@ def _consume(q, k):
                 yield v
         return gen()
 
-    query, sel, single, _ = G.build_real(q, wrap_domain=wrap, classes=(LP, LE))
+    query, sel, single, _ = G.build_real(q, wrap_domain=wrap, classes=(LP, LE), quantification=_slack_constraint(which))
     silent = len(LOG) == 0
     rows = []
     it = iter(query.evaluate())
@@ -128,13 +134,14 @@ def _consume(q, k):
 
 def _one(case: Case) -> str:
     q = case.payload
+    which = int(case.key()[:6], 16)   # which never-violated quantification constraint decorates this query
     try:
-        silent, full, endp = _consume(q, None)
+        silent, full, endp = _consume(q, None, which)
         n = len(full)
         parts = []
         prefix_ok = True
         for k in range(n + 1):
-            s_k, rows_k, p_k = _consume(q, k)
+            s_k, rows_k, p_k = _consume(q, k, which)
             silent = silent and s_k
             prefix_ok = prefix_ok and rows_k == full[:k]
             parts.append(f"k{k}:[" + ",".join(map(str, p_k)) + "]")
